@@ -200,7 +200,53 @@ impl C15 {
             }
         };
         let legacy_decoded = v1::SampleSet::decode(legacy.encode_to_vec().as_slice()).unwrap_or_else(|_| legacy.clone());
-        for (shape, set) in [("current", &ss), ("legacy-fields", &legacy), ("current-decoded", &decoded), ("legacy-decoded", &legacy_decoded)] {
+        // the same tables as another producer may store them: objective values grouped by value (ids of
+        // equal objectives share one entry, in any order) or one entry per id
+        let regroup = |set: &v1::SampleSet, by_value: bool, rng: &mut Rng| -> v1::SampleSet {
+            let mut out = set.clone();
+            if let Some(obj) = &set.objectives {
+                let mut pairs: Vec<(u64, f64)> = obj.entries.iter().flat_map(|e| e.ids.iter().map(move |i| (*i, e.value))).collect();
+                rng.shuffle(&mut pairs);
+                let mut sv = v1::SampledValues::default();
+                if by_value {
+                    let mut groups: Vec<(u64, Vec<u64>)> = vec![];
+                    for (id, v) in &pairs {
+                        let key = if *v == 0.0 { 0 } else { v.to_bits() };
+                        match groups.iter_mut().find(|g| g.0 == key) {
+                            Some(g) => g.1.push(*id),
+                            None => groups.push((key, vec![*id])),
+                        }
+                    }
+                    for (bits, ids) in groups {
+                        let mut e = v1::sampled_values::SampledValuesEntry::default();
+                        e.value = f64::from_bits(bits);
+                        e.ids = ids;
+                        sv.entries.push(e);
+                    }
+                } else {
+                    for (id, v) in pairs {
+                        let mut e = v1::sampled_values::SampledValuesEntry::default();
+                        e.value = v;
+                        e.ids = vec![id];
+                        sv.entries.push(e);
+                    }
+                }
+                out.objectives = Some(sv);
+            }
+            out
+        };
+        let grouped = regroup(&ss, true, rng);
+        let split = regroup(&ss, false, rng);
+        let legacy_grouped = regroup(&legacy, true, rng);
+        for (shape, set) in [
+            ("current", &ss),
+            ("legacy-fields", &legacy),
+            ("current-decoded", &decoded),
+            ("legacy-decoded", &legacy_decoded),
+            ("objectives-grouped-by-value", &grouped),
+            ("objectives-one-entry-per-id", &split),
+            ("legacy-fields+grouped-by-value", &legacy_grouped),
+        ] {
             for (which, feas) in [("relaxed", &feas_relaxed), ("unrelaxed", &feas_all)] {
                 let candidates: Vec<u64> = feas.iter().filter(|(_, f)| **f).map(|(i, _)| *i).collect();
                 let best: Option<Q> = candidates.iter().map(|i| objective[i].clone()).reduce(|a, b| if maximise { a.max(b) } else { a.min(b) });
@@ -261,18 +307,18 @@ impl Property for C15 {
     }
     fn cases(&self, tier: Tier) -> u64 {
         match tier {
-            Tier::Quick => 10_000,
+            Tier::Quick => 60_000,
             Tier::Thorough => 3_000_000,
         }
     }
     fn min_nontrivial(&self, tier: Tier) -> u64 {
         match tier {
-            Tier::Quick => 2_500,
+            Tier::Quick => 12_000,
             Tier::Thorough => 700_000,
         }
     }
     fn rule(&self) -> &'static str {
-        "odd cases: as_minimization_problem on a generated instance of either sense: sense, objective (canonically -f iff it was a maximisation), idempotence, all other fields equal, and the ranking of a random pair of assignments in both problems. Even cases: a generated instance of either sense with constraints steered by constants so that every feasibility pattern occurs, 1-8 sample ids (ties through shared states and constant objectives), evaluate_samples; best_feasible_id / best_feasible_unrelaxed_id / best_feasible / best_feasible_unrelaxed on four shapes of the same set (as produced, rewritten to the legacy feasibility fields, each also after an encode/decode trip) against the exact objective and feasibility per sample: feasible in the requested sense, optimal under the set's sense, Err iff no feasible sample. Non-trivial = >= 2 samples / non-constant objective; distinct = fingerprint of (instance, samples)."
+        "odd cases: as_minimization_problem on a generated instance of either sense: sense, objective (canonically -f iff it was a maximisation), idempotence, all other fields equal, and the ranking of a random pair of assignments in both problems. Even cases: a generated instance of either sense with constraints steered by constants so that every feasibility pattern occurs, 1-8 sample ids (ties through shared states and constant objectives), evaluate_samples; best_feasible_id / best_feasible_unrelaxed_id / best_feasible / best_feasible_unrelaxed on seven shapes of the same set (as produced, rewritten to the legacy feasibility fields, each also after an encode/decode trip, objective table regrouped by value with shuffled ids / one entry per id, legacy + regrouped) against the exact objective and feasibility per sample: feasible in the requested sense, optimal under the set's sense, Err iff no feasible sample. Non-trivial = >= 2 samples / non-constant objective; distinct = fingerprint of (instance, samples)."
     }
     fn assumptions(&self) -> Vec<&'static str> {
         vec!["selection cases run in the dyadic regime and are skipped (counted) when a constraint value lies within rounding of the feasibility threshold or the objective is not certified exact, so ties are real ties"]
